@@ -38,12 +38,14 @@ def gen_case(rng, tier):
         n = rng.randint(1, 4)
         moves = [{"m": "init", "paths": [list(p) for p in gfi.pick_subset(rng, paths, rng.choice(["some", "one", "all", "none"]))],
                   "rseed": rng.randint(0, 2**30)}]
+        moves[0]["prop"] = pick_proposal(rng, c["model"], moves[0]["paths"])
         for _ in range(rng.randint(1, 4 if tier == "quick" else 7)):
             k = rng.choice(["extend", "extend", "resample", "rejuvenate", "change"])
             mv = {"m": k, "rseed": rng.randint(0, 2**30)}
             if k == "extend":
                 mv["hs"] = [round(rng.uniform(-1, 1), 3) for _ in range(n)]
                 mv["paths"] = [list(p) for p in gfi.pick_subset(rng, paths, rng.choice(["some", "one", "all"]))]
+                mv["prop"] = pick_proposal(rng, c["model"], mv["paths"])
             elif k == "resample":
                 mv["method"] = rng.choice(["categorical", "systematic"])
             elif k == "rejuvenate":
@@ -68,6 +70,58 @@ def gen_case(rng, tier):
         c["n"] = rng.choice([2, 3, 4])
         c["rejuv"] = rng.random() < 0.6
     return c
+
+
+# ------------------------------------------------------------------ custom proposals over a subset of the unobserved addresses
+
+# proposal distribution per model distribution (same support), as (reference dist name, parameters)
+QDIST = {"normal": ("normal", (0.2, 1.3)), "normal_s": ("normal", (0.2, 1.3)), "laplace": ("normal", (-0.1, 1.6)),
+         "exponential": ("exponential", (0.8,)), "gamma": ("exponential", (0.8,)), "beta": ("beta", (1.5, 1.5)),
+         "flip": ("flip", (0.4,)), "bernoulli": ("bernoulli", (0.3,)), "categorical": ("categorical", ([0.1, 0.0, -0.2],)),
+         "poisson": ("poisson", (2.0,))}
+
+
+def pick_proposal(rng, model, cons_paths):
+    """Top-level site addresses (not constrained) that a custom proposal will propose; possibly a strict
+    subset of the unobserved addresses (generate fills the rest from the prior at weight 0)."""
+    if rng.random() < 0.5:
+        return []
+    cons = {tuple(p) for p in cons_paths}
+    cands = [b["a"] for b in model["blocks"] if b["k"] == "site" and b["d"] in QDIST and (b["a"],) not in cons]
+    if not cands:
+        return []
+    return sorted(rng.sample(cands, rng.randint(1, len(cands))))
+
+
+def make_proposal(model, addrs, extend_form):
+    import genjax
+
+    dists = {b["a"]: b["d"] for b in model["blocks"] if b["k"] == "site"}
+
+    def body():
+        for a in addrs:
+            qn, qp = QDIST[dists[a]]
+            d = getattr(genjax, qn)
+            d(*[jnp.asarray(x, dtype=jnp.float32) for x in qp]) @ a
+
+    if extend_form:
+        @gen
+        def prop(constraints, old_choices, h):
+            body()
+    else:
+        @gen
+        def prop(constraints, h):
+            body()
+    return prop
+
+
+def q_logp(model, addrs, choices):
+    dists = {b["a"]: b["d"] for b in model["blocks"] if b["k"] == "site"}
+    tot = 0.0
+    for a in addrs:
+        qn, qp = QDIST[dists[a]]
+        tot += ref.logpdf(qn, choices[a], *[np.asarray(x, dtype=np.float64) for x in qp])
+    return tot
 
 
 # ------------------------------------------------------------------ machine mode
@@ -103,20 +157,36 @@ def run_machine(case, viol, probes):
             rr = ref.run(model, case["h"], None, rng=np.random.default_rng(mv["rseed"]))
             cons = ref.subset(rr.choices, [tuple(p) for p in mv["paths"]])
             cp = {tuple(p) for p in mv["paths"]}
-            parts, _ = run_scripted(lambda: init(gf, (case["h"],), const(n), gfi.to_jnp(cons)), script)
+            pa = mv.get("prop") or []
+            pgf = make_proposal(model, pa, False) if pa else None
+            if pa:
+                probes["custom_proposal"] = probes.get("custom_proposal", 0) + 1
+                if len(pa) + len(cp) < len(ref.model_paths(model)):
+                    probes["partial_proposal"] = probes.get("partial_proposal", 0) + 1
+            parts, _ = run_scripted(lambda: init(gf, (case["h"],), const(n), gfi.to_jnp(cons), pgf), script)
             w_ref = np.zeros(n)
             for i in range(n):
-                r = ref.run(model, case["h"], gfi.np_choices(lane(parts.traces, i)))
-                w_ref[i] = sum(s["logp"] for s in r.sites if s["live"] and tuple(s["path"]) in cp)
+                chi = gfi.np_choices(lane(parts.traces, i))
+                r = ref.run(model, case["h"], chi)
+                w_ref[i] = sum(s["logp"] for s in r.sites if s["live"] and (tuple(s["path"]) in cp or tuple(s["path"]) in {(a,) for a in pa}))
+                w_ref[i] -= q_logp(model, pa, chi)
         elif k == "extend":
             rr = ref.run(model, mv["hs"][0], None, rng=np.random.default_rng(mv["rseed"]))
             cons = ref.subset(rr.choices, [tuple(p) for p in mv["paths"]])
             cp = {tuple(p) for p in mv["paths"]}
             hs = list(mv["hs"])
-            parts, _ = run_scripted(lambda p: extend(p, gf, jnp.asarray(hs, dtype=jnp.float32), gfi.to_jnp(cons)), script, parts)
+            pa = [a for a in (mv.get("prop") or []) if (a,) not in cp]
+            pgf = make_proposal(model, pa, True) if pa else None
+            if pa:
+                probes["custom_proposal"] = probes.get("custom_proposal", 0) + 1
+                if len(pa) + len(cp) < len(ref.model_paths(model)):
+                    probes["partial_proposal"] = probes.get("partial_proposal", 0) + 1
+            parts, _ = run_scripted(lambda p: extend(p, gf, jnp.asarray(hs, dtype=jnp.float32), gfi.to_jnp(cons), pgf), script, parts)
             for i in range(n):
-                r = ref.run(model, hs[i], gfi.np_choices(lane(parts.traces, i)))
-                w_ref[i] += sum(s["logp"] for s in r.sites if s["live"] and tuple(s["path"]) in cp)
+                chi = gfi.np_choices(lane(parts.traces, i))
+                r = ref.run(model, hs[i], chi)
+                w_ref[i] += sum(s["logp"] for s in r.sites if s["live"] and (tuple(s["path"]) in cp or tuple(s["path"]) in {(a,) for a in pa}))
+                w_ref[i] -= q_logp(model, pa, chi)
         elif k == "resample":
             before = parts
             parts, _ = run_scripted(lambda p: resample(p, method=mv["method"]), script, parts)
